@@ -375,7 +375,11 @@ impl GroupEncoding for Curve25519 {
     fn from_bytes(bytes: &Self::Repr) -> CtOption<Self> {
         let compressed = CompressedEdwardsY(*bytes);
         match compressed.decompress() {
-            Some(point) => CtOption::new(Curve25519(point), Choice::from(1u8)),
+            // Only the canonical encoding of a point is accepted.
+            Some(point) => CtOption::new(
+                Curve25519(point),
+                Choice::from((point.compress().to_bytes() == *bytes) as u8),
+            ),
             None => CtOption::new(Curve25519(EdwardsPoint::identity()), Choice::from(0u8)),
         }
     }
